@@ -134,7 +134,7 @@ func TestC12(t *testing.T) {
 	r.Assume("the Go race detector reports the unsynchronised accesses that happen in a run (reports are parsed by the driver against race_allow); absence of a report is not a proof for schedules that did not occur")
 	r.Assume("epoch discipline: every tagged item of epoch e is removed before any item of epoch e+1 is added (two barriers), so any one-moment snapshot carries a single tag")
 
-	runs := r.N(120, 2000)
+	runs := r.N(100, 2000)
 	rng := r.Rng("runs")
 	var calls [nListerKinds]atomic.Int64
 	var nonEmpty, mixed, maxLen, registered, srvRegistered, daCalls, daPlayers atomic.Int64
